@@ -59,19 +59,35 @@ Inductive pm_type := PmHost | PmService.
 Definition pm_type_eqb (a b : pm_type) : bool :=
   match a, b with PmHost, PmHost | PmService, PmService => true | _, _ => false end.
 
+Inductive pm_nav := PmNCheckCommand | PmNCheckPeriod | PmNEventCommand | PmNCommandEndpoint.
+
 (* po_name: full object name (what ConfigObject::GetObject is keyed by, "host!service" for services);
-   po_short: the `name` attribute; po_host/po_hvars: name and vars of the host (of the object itself for hosts) *)
+   po_short: the `name` attribute; po_host/po_hvars: name and vars of the host a service belongs to (of the object
+   itself for hosts); po_cc/po_cp/po_ec/po_ce: the objects its navigation fields check_command / check_period /
+   event_command / command_endpoint refer to (None = null reference) *)
 Record pm_obj := {
   po_type : pm_type; po_name : pm_str; po_short : pm_str; po_host : pm_str;
-  po_vars : list (pm_str * pm_str); po_hvars : list (pm_str * pm_str)
+  po_vars : list (pm_str * pm_str); po_hvars : list (pm_str * pm_str);
+  po_cc : option pm_str; po_cp : option pm_str; po_ec : option pm_str; po_ce : option pm_str
 }.
 
-Inductive pm_scope := PmScHost | PmScService | PmScObj.
+(* the variables of a filter frame's namespace that the fragment can read *)
+Inductive pm_scope := PmScHost | PmScService | PmScObj | PmScNav (k : pm_nav).
+Definition pm_nav_eqb (a b : pm_nav) : bool :=
+  match a, b with
+  | PmNCheckCommand, PmNCheckCommand | PmNCheckPeriod, PmNCheckPeriod
+  | PmNEventCommand, PmNEventCommand | PmNCommandEndpoint, PmNCommandEndpoint => true
+  | _, _ => false
+  end.
 Definition pm_scope_eqb (a b : pm_scope) : bool :=
-  match a, b with PmScHost, PmScHost | PmScService, PmScService | PmScObj, PmScObj => true | _, _ => false end.
+  match a, b with
+  | PmScHost, PmScHost | PmScService, PmScService | PmScObj, PmScObj => true
+  | PmScNav x, PmScNav y => pm_nav_eqb x y
+  | _, _ => false
+  end.
 
 (* the boolean fragment of the DSL the tie generates:  sc.name == "n",  sc.vars.k == "v",  sc.name == x
-   (x a filter variable), &&, ||, !, true, false *)
+   (x a filter variable), &&, ||, !, true, false;  sc a namespace variable: host, service, obj or a joined object *)
 Inductive pm_filter :=
 | PmFTrue | PmFFalse
 | PmFName (sc : pm_scope) (n : pm_str)
@@ -92,77 +108,96 @@ Fixpoint pm_assoc (k : pm_str) (l : list (pm_str * pm_str)) : option pm_str :=
   | (k', v) :: r => if pm_str_eqb k k' then Some v else pm_assoc k r
   end.
 
-(* what EvaluateFilter binds IN THE NAMESPACE OF THE FRAME IT IS GIVEN: obj = the target, <lower-cased type
-   name> = the target, plus the target's navigation fields (a service's `host`).  It never removes a binding:
-   when the target is a host, `service` is whatever an earlier evaluation in the same frame left there -
-   [sv] = the last service evaluated in this frame, None = undefined variable (ScriptError). *)
-Definition pm_scope_view (sv : option pm_obj) (sc : pm_scope) (o : pm_obj) : option (pm_str * list (pm_str * pm_str)) :=
-  match sc with
-  | PmScObj => Some (po_short o, po_vars o)
-  | PmScHost => Some (po_host o, po_hvars o)
-  | PmScService =>
-      match po_type o with
-      | PmService => Some (po_short o, po_vars o)
-      | PmHost => match sv with Some s => Some (po_short s, po_vars s) | None => None end
-      end
+(* ---------------------------------------------------------------- the namespace of a filter frame *)
+(* a bound value: None = null (`x.name`, `x.vars.k` are Empty, every comparison false); Some (name, vars) with
+   vars = None for an object type without a `vars` field (Endpoint: reading it throws) *)
+Definition pm_val := option (pm_str * option (list (pm_str * pm_str))).
+(* latest binding first; a variable that was never Set is undefined (reading it throws) *)
+Definition pm_ns := list (pm_scope * pm_val).
+Fixpoint pm_ns_get (ns : pm_ns) (v : pm_scope) : option pm_val :=
+  match ns with
+  | [] => None
+  | (v', x) :: r => if pm_scope_eqb v v' then Some x else pm_ns_get r v
+  end.
+Definition pm_ns_set (ns : pm_ns) (v : pm_scope) (x : pm_val) : pm_ns := (v, x) :: ns.
+
+(* which fields of Host / Service carry FANavigation, in field order (Facts_c18.f_pm_nav_host/_service):
+   Checkable: check_command, check_period, event_command, command_endpoint; Service adds host *)
+Definition pm_checkable_navs : list pm_scope :=
+  [PmScNav PmNCheckCommand; PmScNav PmNCheckPeriod; PmScNav PmNEventCommand; PmScNav PmNCommandEndpoint].
+Definition pm_nav_vars (t : pm_type) : list pm_scope :=
+  match t with PmHost => pm_checkable_navs | PmService => pm_checkable_navs ++ [PmScHost] end.
+
+(* target->NavigateField(fid) *)
+Definition pm_nav_val (o : pm_obj) (v : pm_scope) : pm_val :=
+  match v with
+  | PmScNav PmNCheckCommand => option_map (fun n => (n, Some [])) (po_cc o)
+  | PmScNav PmNCheckPeriod => option_map (fun n => (n, Some [])) (po_cp o)
+  | PmScNav PmNEventCommand => option_map (fun n => (n, Some [])) (po_ec o)
+  | PmScNav PmNCommandEndpoint => option_map (fun n => (n, None)) (po_ce o)
+  | PmScHost => Some (po_host o, Some (po_hvars o))       (* Service::host; a service always has its host *)
+  | _ => None
   end.
 
-Fixpoint pm_eval (fv : list (pm_str * pm_str)) (sv : option pm_obj) (f : pm_filter) (o : pm_obj) : pm_tri :=
+Definition pm_type_var (t : pm_type) : pm_scope := match t with PmHost => PmScHost | PmService => PmScService end.
+
+(* the binding step of FilterUtility::EvaluateFilter: frameNS->Set("obj", target); Set(<type name>, target);
+   then for EVERY navigation field of the target's type Set(<navigation name>, joined object OR null) - there is no
+   early `continue` for a null reference (Facts_c18.f_pm_bind_guard).  Nothing is ever removed from [ns]. *)
+Definition pm_bind (ns : pm_ns) (o : pm_obj) : pm_ns :=
+  let self : pm_val := Some (po_short o, Some (po_vars o)) in
+  fold_left (fun ns v => pm_ns_set ns v (pm_nav_val o v)) (pm_nav_vars (po_type o))
+            (pm_ns_set (pm_ns_set ns PmScObj self) (pm_type_var (po_type o)) self).
+
+(* filter->Evaluate(frame): reads only the namespace [ns] (and, for the user's filter, filter_vars [fv]) *)
+Fixpoint pm_eval (fv : list (pm_str * pm_str)) (ns : pm_ns) (f : pm_filter) : pm_tri :=
   match f with
   | PmFTrue => PmT
   | PmFFalse => PmF
   | PmFName sc n =>
-      match pm_scope_view sv sc o with
-      | None => PmE
-      | Some (nm, _) => pm_tri_of_bool (pm_str_eqb nm n)
+      match pm_ns_get ns sc with
+      | None => PmE                                  (* undefined script variable *)
+      | Some None => PmF
+      | Some (Some (nm, _)) => pm_tri_of_bool (pm_str_eqb nm n)
       end
   | PmFVar sc k v =>
-      match pm_scope_view sv sc o with
+      match pm_ns_get ns sc with
       | None => PmE
-      | Some (_, vars) =>
+      | Some None => PmF
+      | Some (Some (_, None)) => PmE                 (* no such field *)
+      | Some (Some (_, Some vars)) =>
           match pm_assoc k vars with
           | None => PmF
           | Some v' => pm_tri_of_bool (pm_str_eqb v' v)
           end
       end
   | PmFNameVar sc x =>
-      match pm_scope_view sv sc o with
+      match pm_ns_get ns sc with
       | None => PmE
-      | Some (nm, _) =>
+      | Some val =>
           match pm_assoc x fv with
-          | None => PmE           (* undefined script variable *)
-          | Some n => pm_tri_of_bool (pm_str_eqb nm n)
+          | None => PmE                              (* undefined script variable *)
+          | Some n => match val with None => PmF | Some (nm, _) => pm_tri_of_bool (pm_str_eqb nm n) end
           end
       end
   | PmFAnd a b =>
-      match pm_eval fv sv a o with PmE => PmE | PmF => PmF | PmT => pm_eval fv sv b o end
+      match pm_eval fv ns a with PmE => PmE | PmF => PmF | PmT => pm_eval fv ns b end
   | PmFOr a b =>
-      match pm_eval fv sv a o with PmE => PmE | PmT => PmT | PmF => pm_eval fv sv b o end
+      match pm_eval fv ns a with PmE => PmE | PmT => PmT | PmF => pm_eval fv ns b end
   | PmFNot a =>
-      match pm_eval fv sv a o with PmE => PmE | PmT => PmF | PmF => PmT end
+      match pm_eval fv ns a with PmE => PmE | PmT => PmF | PmF => PmT end
   end.
 
-(* EvaluateFilter with a possibly null expression (null => true); permission filters see no filter_vars *)
-Definition pm_eval_opt (pf : option pm_filter) (sv : option pm_obj) (o : pm_obj) : pm_tri :=
-  match pf with None => PmT | Some f => pm_eval [] sv f o end.
-
-(* GetFilterTargets uses ONE permission frame for all its evaluations.  Every by-name evaluation that did not
-   end the call appended its target to the result, so the frame's `service` is the last service in [acc]. *)
-Definition pm_is_service (o : pm_obj) : bool := pm_type_eqb (po_type o) PmService.
-Fixpoint pm_last_service (l : list pm_obj) : option pm_obj :=
-  match l with
-  | [] => None
-  | o :: r =>
-      match pm_last_service r with
-      | Some s => Some s
-      | None => if pm_is_service o then Some o else None
-      end
+(* FilterUtility::EvaluateFilter(frame, filter, target): a null filter returns true before anything is bound;
+   otherwise bind, then evaluate.  Result: the frame's namespace afterwards and the outcome. *)
+Definition pm_evalf (fv : list (pm_str * pm_str)) (pf : option pm_filter) (ns : pm_ns) (o : pm_obj) : pm_ns * pm_tri :=
+  match pf with
+  | None => (ns, PmT)
+  | Some f => let ns' := pm_bind ns o in (ns', pm_eval fv ns' f)
   end.
 
-(* the frame's `service` after the targets [l] were evaluated in one namespace (EvaluateFilter never removes a
-   binding).  Since the fix of F-C18-a the namespace is replaced at the start of every by-name type iteration and
-   before the filter phase, so [l] only ever holds targets of one type. *)
-Definition pm_frame_sv (l : list pm_obj) : option pm_obj := pm_last_service l.
+(* the evaluation the statement means: the filter on the object alone (a fresh namespace) *)
+Definition pm_eval_opt (pf : option pm_filter) (o : pm_obj) : pm_tri := snd (pm_evalf [] pf [] o).
 
 (* ---------------------------------------------------------------- HasPermission / CheckPermission *)
 Record pm_entry := { pe_perm : pm_str; pe_filter : option pm_filter }.
@@ -225,38 +260,38 @@ Definition pm_q_single (q : pm_query) (t : pm_type) : option pm_str :=
 Definition pm_q_plural (q : pm_query) (t : pm_type) : option (list pm_str) :=
   match t with PmHost => pq_hosts q | PmService => pq_services q end.
 
-(* GetTargetByName + EvaluateFilter(permissionFilter) + throw "Access denied".
-   [fr] = the targets already evaluated in the CURRENT namespace of the permission frame. *)
+(* GetTargetByName + EvaluateFilter(permissionFrame, permissionFilter, target) + throw "Access denied".
+   [ns] = the permission frame's namespace before this evaluation; returned with the target on success. *)
 Definition pm_name_one (pf : option pm_filter) (inv : list pm_obj) (t : pm_type) (n : pm_str)
-           (fr : list pm_obj) : pm_err + pm_obj :=
+           (ns : pm_ns) : pm_err + (pm_obj * pm_ns) :=
   match pm_lookup inv t n with
   | None => inl PmErrNoObj
   | Some o =>
-      match pm_eval_opt pf (pm_frame_sv fr) o with
-      | PmT => inr o
-      | PmF => inl PmErrDenied
-      | PmE => inl PmErrScript
+      match pm_evalf [] pf ns o with
+      | (ns', PmT) => inr (o, ns')
+      | (_, PmF) => inl PmErrDenied
+      | (_, PmE) => inl PmErrScript
       end
   end.
 
 Fixpoint pm_name_list (pf : option pm_filter) (inv : list pm_obj) (t : pm_type) (ns : list pm_str)
-         (acc fr : list pm_obj) : pm_err + list pm_obj :=
+         (acc : list pm_obj) (fr : pm_ns) : pm_err + list pm_obj :=
   match ns with
   | [] => inr acc
   | n :: r =>
       match pm_name_one pf inv t n fr with
       | inl e => inl e
-      | inr o => pm_name_list pf inv t r (acc ++ [o]) (fr ++ [o])
+      | inr (o, fr') => pm_name_list pf inv t r (acc ++ [o]) fr'
       end
   end.
 
 (* one iteration of `for (const String& type : qd.Types)`: it starts with
-   `permissionFrame.Self = new Namespace()` (fix 053695b), i.e. with an empty [fr] *)
+   `permissionFrame.Self = new Namespace()` (fix 053695b), i.e. with an empty namespace *)
 Definition pm_names_type (pf : option pm_filter) (inv : list pm_obj) (q : pm_query) (t : pm_type)
            (acc : list pm_obj) : pm_err + list pm_obj :=
   match (match pm_q_single q t with
          | None => inr (acc, [])
-         | Some n => match pm_name_one pf inv t n [] with inl e => inl e | inr o => inr (acc ++ [o], [o]) end
+         | Some n => match pm_name_one pf inv t n [] with inl e => inl e | inr (o, fr) => inr (acc ++ [o], fr) end
          end) with
   | inl e => inl e
   | inr (acc1, fr1) =>
@@ -327,41 +362,43 @@ Fixpoint pm_target_services (f : pm_filter) (fv : list (pm_str * pm_str)) : opti
 Definition pm_targets (t : pm_type) (f : pm_filter) (fv : list (pm_str * pm_str)) : option (list pm_str) :=
   match t with PmHost => pm_target_hosts f fv | PmService => pm_target_services f fv end.
 
-(* `if (targeted)`: names -> objects (missing ones are skipped), then only the PERMISSION filter *)
-Fixpoint pm_fast_collect (pf : option pm_filter) (sv : option pm_obj) (inv : list pm_obj) (t : pm_type)
-         (ns : list pm_str) : pm_err + list pm_obj :=
-  match ns with
+(* `if (targeted)`: names -> objects (missing ones are skipped), then only the PERMISSION filter, all in the one
+   permission namespace [ns] *)
+Fixpoint pm_fast_collect (pf : option pm_filter) (ns : pm_ns) (inv : list pm_obj) (t : pm_type)
+         (names : list pm_str) : pm_err + list pm_obj :=
+  match names with
   | [] => inr []
   | n :: r =>
       match pm_lookup inv t n with
-      | None => pm_fast_collect pf sv inv t r
+      | None => pm_fast_collect pf ns inv t r
       | Some o =>
-          match pm_eval_opt pf sv o with
-          | PmE => inl PmErrScript
-          | PmF => pm_fast_collect pf sv inv t r
-          | PmT => match pm_fast_collect pf sv inv t r with inl e => inl e | inr l => inr (o :: l) end
+          match pm_evalf [] pf ns o with
+          | (_, PmE) => inl PmErrScript
+          | (ns', PmF) => pm_fast_collect pf ns' inv t r
+          | (ns', PmT) => match pm_fast_collect pf ns' inv t r with inl e => inl e | inr l => inr (o :: l) end
           end
       end
   end.
 
-(* FindTargets + FilteredAddTarget: permission filter first, then the user filter *)
-Fixpoint pm_scan (pf : option pm_filter) (sv : option pm_obj) (uf : option pm_filter) (fv : list (pm_str * pm_str))
-         (t : pm_type) (inv : list pm_obj) : pm_err + list pm_obj :=
+(* FindTargets + FilteredAddTarget: permission filter in the permission namespace [pns], then the user filter in
+   the namespace [uns] of the user's own frame (filter_vars [fv] live there too) *)
+Fixpoint pm_scan (pf : option pm_filter) (pns : pm_ns) (uf : option pm_filter) (fv : list (pm_str * pm_str))
+         (uns : pm_ns) (t : pm_type) (inv : list pm_obj) : pm_err + list pm_obj :=
   match inv with
   | [] => inr []
   | o :: r =>
       if pm_type_eqb (po_type o) t then
-        match pm_eval_opt pf sv o with
-        | PmE => inl PmErrScript
-        | PmF => pm_scan pf sv uf fv t r
-        | PmT =>
-            match (match uf with None => PmT | Some f => pm_eval fv None f o end) with
-            | PmE => inl PmErrScript
-            | PmF => pm_scan pf sv uf fv t r
-            | PmT => match pm_scan pf sv uf fv t r with inl e => inl e | inr l => inr (o :: l) end
+        match pm_evalf [] pf pns o with
+        | (_, PmE) => inl PmErrScript
+        | (pns', PmF) => pm_scan pf pns' uf fv uns t r
+        | (pns', PmT) =>
+            match pm_evalf fv uf uns o with
+            | (_, PmE) => inl PmErrScript
+            | (uns', PmF) => pm_scan pf pns' uf fv uns' t r
+            | (uns', PmT) => match pm_scan pf pns' uf fv uns' t r with inl e => inl e | inr l => inr (o :: l) end
             end
         end
-      else pm_scan pf sv uf fv t r
+      else pm_scan pf pns uf fv uns t r
   end.
 
 (* fix 06579d2: filter_vars named obj / host / service are overwritten by EvaluateFilter with the target, so
@@ -370,15 +407,15 @@ Definition pm_shadowed (fv : list (pm_str * pm_str)) : bool :=
   existsb (fun kv => pm_str_eqb (fst kv) [111;98;106] || pm_str_eqb (fst kv) [104;111;115;116]
                      || pm_str_eqb (fst kv) [115;101;114;118;105;99;101]) fv.
 
-(* the user filter runs in its own frame, which only ever sees objects of the one type [t] *)
-Definition pm_by_filter (fast : bool) (pf : option pm_filter) (sv : option pm_obj) (inv : list pm_obj) (t : pm_type)
+(* the filter phase; it starts with `permissionFrame.Self = new Namespace()` (fix 17a75cd) and a new user frame *)
+Definition pm_by_filter (fast : bool) (pf : option pm_filter) (inv : list pm_obj) (t : pm_type)
            (uf : option pm_filter) (fv : list (pm_str * pm_str)) : pm_err + list pm_obj :=
   match uf with
-  | None => pm_scan pf sv None fv t inv
+  | None => pm_scan pf [] None fv [] t inv
   | Some f =>
       match (if fast && negb (pm_shadowed fv) then pm_targets t f fv else None) with
-      | Some ns => pm_fast_collect pf sv inv t ns
-      | None => pm_scan pf sv (Some f) fv t inv
+      | Some ns => pm_fast_collect pf [] inv t ns
+      | None => pm_scan pf [] (Some f) fv [] t inv
       end
   end.
 
@@ -411,7 +448,7 @@ Definition pm_filter_targets (fast : bool) (u : list pm_entry) (perm : pm_str) (
                 match pm_qtype_in tys qt with
                 | None => (c1, PmErr PmErrTypeNotInQd)
                 | Some t =>
-                    (true, match pm_by_filter fast pf (pm_frame_sv []) inv t (pq_filter q) (pq_fvars q) with
+                    (true, match pm_by_filter fast pf inv t (pq_filter q) (pq_fvars q) with
                            | inl e => PmErr e
                            | inr l => PmOk (res ++ l)
                            end)
@@ -432,18 +469,15 @@ Definition pm_query_perm (t : pm_type) : pm_str := pm_query_prefix ++ pm_type_na
    (a ScriptError while evaluating counts as "no"); a fresh frame per joined object *)
 Definition pm_join_visible (u : list pm_entry) (o : pm_obj) : bool :=
   let '(granted, pf) := pm_has_permission u (pm_query_perm (po_type o)) in
-  granted && pm_is_t (pm_eval_opt pf None o).
+  granted && pm_is_t (pm_eval_opt pf o).
 
 (* ---------------------------------------------------------------- the statement's reading of "permitted" *)
 (* some entry matches the required permission and, when that entry carries a filter, the filter is true *)
-Definition pm_entry_allows (perm : pm_str) (sv : option pm_obj) (o : pm_obj) (e : pm_entry) : bool :=
+Definition pm_entry_allows (perm : pm_str) (o : pm_obj) (e : pm_entry) : bool :=
   pm_match (pm_lower (pe_perm e)) (pm_lower perm)
-  && match pe_filter e with None => true | Some f => pm_is_t (pm_eval [] sv f o) end.
-(* [sv] = None: the filter evaluated on the object alone, as the statement reads *)
-Definition pm_spec_allow_sv (u : list pm_entry) (perm : pm_str) (sv : option pm_obj) (o : pm_obj) : bool :=
-  existsb (pm_entry_allows perm sv o) u.
+  && match pe_filter e with None => true | Some f => pm_is_t (pm_eval [] (pm_bind [] o) f) end.
 Definition pm_spec_allow (u : list pm_entry) (perm : pm_str) (o : pm_obj) : bool :=
-  pm_spec_allow_sv u perm None o.
+  existsb (pm_entry_allows perm o) u.
 Definition pm_spec_has (u : list pm_entry) (perm : pm_str) : bool :=
   match perm with
   | [] => true
